@@ -137,6 +137,7 @@ pub fn prop_of(id: &str) -> Option<Prop> {
         "C03" => Some(Prop::C03),
         "C06" => Some(Prop::C06),
         "C20" => Some(Prop::C20),
+        "C04" => Some(Prop::C04),
         _ => None,
     }
 }
